@@ -78,9 +78,9 @@ def build_model():
             return False, out
         for f in glob.glob(os.path.join(ROOT, "ocaml", "*.ml")):
             shutil.copy(f, d)
-        rc, out2 = sh("timeout 1200 ocamlfind ocamlopt -package zarith -linkpkg -w -a -O2 -unboxed-types 2>/dev/null "
+        rc, out2 = sh("timeout 1200 ocamlfind ocamlopt -package zarith,str -linkpkg -w -a -O2 -unboxed-types 2>/dev/null "
                       "sfmodel.mli sfmodel.ml driver.ml -o sfmodel.tmp || "
-                      "timeout 1200 ocamlfind ocamlopt -package zarith -linkpkg -w -a sfmodel.mli sfmodel.ml driver.ml -o sfmodel.tmp",
+                      "timeout 1200 ocamlfind ocamlopt -package zarith,str -linkpkg -w -a sfmodel.mli sfmodel.ml driver.ml -o sfmodel.tmp",
                       cwd=d)
         if rc != 0:
             return False, out + out2
